@@ -597,6 +597,9 @@ class JournalStorageReplayResult:
 
         state = TrialState(log["state"])
         if state == self._trials[trial_id].state and state == TrialState.RUNNING:
+            # The trial is already running: the issuer has not claimed it by this request.
+            if self._is_issued_by_this_worker(log):
+                self._worker_id_to_owned_trial_id.pop(self.worker_id, None)
             return
 
         trial = copy.copy(self._trials[trial_id])
